@@ -10,7 +10,9 @@
 //@ include contracts/headers.rs as callee
 //@ include contracts/creq.rs as callee
 //@ include contracts/time.rs as callee
+//@ include contracts/trim.rs as callee
 //@ include contracts/requirements.rs as callee
 //@ include contracts/params.rs as callee
+//@ include contracts/ctype.rs as callee
 //@ include contracts/request.rs
 //@ include prelude/tail.rs
